@@ -204,7 +204,8 @@ func (runInfo *runInfoStruct) runVarStmt(stmt *ast.VarStmt) {
 		if env, ok := runInfo.rv.Interface().(*env.Env); ok && env != nil {
 			rvs[i] = reflect.ValueOf(env.DeepCopy())
 		} else {
-			rvs[i] = runInfo.rv
+			// the value is the one read now, also when a later right side expression changes where it came from
+			rvs[i] = heldOperand(runInfo.rv)
 		}
 	}
 
